@@ -811,6 +811,28 @@ fn run_c01(o: &Opts, cx: &mut Ctx) {
             }
         } }
     }
+    // consecutive sessions on ONE thread whose ids are related (shared prefixes of 8/9/16/31 bytes, ids differing in one
+    // late byte, the same id again, all-zero then one-hot): the functions are specified as pure in (session id, inputs,
+    // tapes), so anything carried over from the previous session (a cache, a reused buffer) shows here
+    let mut base = [0u8; 32]; rng.fill_bytes(&mut base);
+    let mut fam: Vec<[u8; 32]> = vec![base];
+    for cut in [31usize, 16, 9, 8] { let mut s = base; for b in s[cut..].iter_mut() { *b = rng.next_u32() as u8; } fam.push(s); }
+    { let mut s = base; s[31] ^= 1; fam.push(s); }
+    fam.push(base);
+    fam.push([0u8; 32]);
+    for pos in [31usize, 9, 0] { let mut s = [0u8; 32]; s[pos] = 1; fam.push(s); }
+    let reps = if thorough { 3 } else { 1 };
+    for r in 0..reps {
+        let a = [special_scalar(&mut rng, 3), special_scalar(&mut rng, (r % 4) as usize)];
+        for (i, sid) in fam.iter().enumerate() {
+            let (v, prov) = if i % 4 == 3 { (Variant::Ot, "na") } else { (Variant::Ext, "syn") };
+            let key = key_of(v, prov, *sid, &a, rng.next_u64() >> 1, 0);
+            // NOT clearing any implementation-side state between these: only the harness cache
+            cx.cache.clear();
+            cx.rep.hist("related-session-ids");
+            scenario(cx, &format!("{} honest", key.line()));
+        }
+    }
 }
 
 /// every single-bit flip of the RVOLEOutput of one honest ext exchange, real receiver only (16 threads); the model's
